@@ -9,10 +9,10 @@ TREE_OK = ("greedy", "ucb", "thompson")
 WARM_OK = ("greedy", "ucb", "softmax", "thompson", "popularity", "lingreedy", "linucb", "lints")
 
 LABEL_SETS = {
-    "int": [3, 1, 7, 10, 4, 22, 5, 8],
+    "int": [3, 1, 7, 10, 4, 22, 5, 8, 0],          # 0 / 0.0 / "": labels that are falsy
     # labels of different lengths, some a proper prefix of another (fixed-width string arrays truncate silently)
-    "str": ["a", "ab", "c", "dd", "d", "abc", "g", "h"],
-    "float": [0.5, 2.0, 1.25, 7.0, 3.5, 9.0, 4.75, 6.0],
+    "str": ["a", "ab", "c", "dd", "d", "abc", "g", "h", ""],
+    "float": [0.5, 2.0, 1.25, 7.0, 3.5, 9.0, 4.75, 6.0, 0.0],
 }
 
 
@@ -430,6 +430,13 @@ def gen_scenario(seed, index, profile):
                 if op.get("r") is not None:
                     op["r"] = [-abs(x) - 1 if isinstance(x, (int, float)) and not isinstance(x, bool) else x for x in op["r"]]
             return scn
+    if g.lpk != "thompson" and 0.5 <= r2.random() < 0.56 and not (profile.get("warm_readd") and index % 12 == 5):
+        # tiny rewards (units of 2^-40, exact in binary floating point): nothing may treat "small" as "zero" or "equal"
+        scn = g.build()
+        for op in scn["ops"]:
+            if op.get("r") is not None:
+                op["r"] = [x * 2.0 ** -40 if isinstance(x, (int, float)) and not isinstance(x, bool) else x for x in op["r"]]
+        return scn
     if profile.get("warm_readd") and index % 12 == 5 and g.npk is None and g.lpk in WARM_OK and len(g.arms + g.spare) >= 3:
         return warm_readd_scenario(rng, g)
     return g.build()
